@@ -131,7 +131,7 @@ func better(a, b *Violation) bool {
 	return a.Witness < b.Witness
 }
 
-const maxDistinct = 4 << 20
+const maxDistinct = 1 << 20
 
 type worker struct {
 	id         int
